@@ -238,6 +238,11 @@ func init() {
 			for i := 0; i < soaks; i++ {
 				cs = append(cs, CaseSpec{Kind: "soak", P: map[string]int64{"n": int64(3 + i%3), "txs": 240}})
 			}
+			// the recorded history of the known finding (late validator-set change),
+			// kept in every tier and at every seed: thorough seed 1 case 26
+			cs = append(cs, CaseSpec{Kind: "history",
+				P: map[string]int64{"badger": 0, "joins": 2, "leaves": 1, "n": 7, "refused": 1, "simultaneous": 1, "steps": 470, "pin_seed": 1, "pin_index": 26},
+				S: map[string]string{"shape": "lag", "pin_tier": "thorough"}})
 			return cs
 		},
 		Run: func(cs CaseSpec) *CaseResult {
